@@ -9,8 +9,15 @@ HERE="$(cd "$(dirname "$0")" && pwd)"
 ROOT="$(cd "$HERE/../.." && pwd)"
 ID="$1"; SEED="${2:-1}"
 case "$ID" in
+    C06) TARGETS="fz_prime" ;;
     C07) TARGETS="fz_mont" ;;
+    C08) TARGETS="fz_div" ;;
     C09) TARGETS="fz_gcd" ;;
+    C10) TARGETS="fz_poly" ;;
+    C11) TARGETS="fz_rel" ;;
+    C14) TARGETS="fz_gauss" ;;
+    C15) TARGETS="fz_curve" ;;
+    C19) TARGETS="fz_lin" ;;
     *) exit 0 ;;
 esac
 "$HERE/build.sh" || { echo "INCONCLUSIVE property=$ID fuzz targets could not be built"; exit 2; }
@@ -25,7 +32,7 @@ for t in $TARGETS; do
     for j in $(seq 1 "$JOBS"); do
         mkdir -p "$WORK/$t/corpus$j" "$WORK/$t/art$j"
         [ -d "$HERE/seeds/$t" ] && cp "$HERE/seeds/$t"/* "$WORK/$t/corpus$j/" 2>/dev/null
-        "$BIN/$t" "$WORK/$t/corpus$j" -seed=$((SEED * 1000 + j)) -max_total_time="$SECS" -len_control=0 -max_len=400 \
+        "$BIN/$t" "$WORK/$t/corpus$j" -seed=$((SEED * 1000 + j)) -max_total_time="$SECS" -len_control=0 -max_len=400 -timeout=60 \
             -artifact_prefix="$WORK/$t/art$j/" -print_final_stats=1 >"$WORK/$t/log$j" 2>&1 &
     done
     wait
